@@ -92,6 +92,11 @@ type Hold struct {
 	Block           *LiveBlock
 	RotationsAtOpen int
 	failsAtOpen     int
+	// OK is set when the read completed successfully (EOF reached and
+	// bytes verified); Seen is for the caller's bookkeeping.
+	OK, Seen bool
+	// AllocsAtOpen: successful NewBlock calls when the Get call was made.
+	AllocsAtOpen int
 }
 
 // World is a store plus reference model plus scheduler.
@@ -600,7 +605,7 @@ func (w *World) OpenHold(o *Obj, instance string, asReader bool, chunk int) *Hol
 		putsBefore[lb] = lb.Info.Puts
 	}
 	b := w.St.BA.Get(w.Ctx, o.Digest(instance))
-	h := &Hold{Obj: o, Instance: instance, RotationsAtOpen: w.St.BL.PopFronts, failsAtOpen: fails}
+	h := &Hold{Obj: o, Instance: instance, RotationsAtOpen: w.St.BL.PopFronts, failsAtOpen: fails, AllocsAtOpen: w.St.Alloc.NewBlockCalls}
 	for _, lb := range w.AllLive {
 		if lb.Info.Puts != putsBefore[lb] {
 			h.Block = lb // target block of the on-the-fly refresh
@@ -646,6 +651,7 @@ func (w *World) HoldRead(h *Hold, n int) bool {
 	if err == io.EOF {
 		w.logf("hold obj=%d finished: %d bytes", h.Obj.ID, len(h.got))
 		w.expectBytes("held-open Get", h.Obj, h.Instance, h.got)
+		h.OK = true
 		return true
 	}
 	w.logf("hold obj=%d failed: %v", h.Obj.ID, err)
